@@ -281,7 +281,9 @@ def _emission(report, sc, ybin, lean, rng, quick, seed):
     pytext = open(os.path.join(root, "py", "cf", "types.py")).read()
     envs = [[7, 3, 2, 5], [40, 4, 2, 9], [2, 3, 2, 1], [100, 7, 3, 11], [9, 2, 4, 6]]
     pyvals = _py_values(root, list(exprs), envs)
-    cppvals = _cpp_values(root, list(exprs), envs, sc)
+    # integer division by zero is undefined in the source language and traps in C++: such (field, env) pairs are not evaluated there
+    undefined = {(n, tuple(env)) for n, e in exprs.items() for env in envs if "value" not in lean.ask({"op": "eval", "expr": e, "env": env})}
+    cppvals = _cpp_values(root, list(exprs), envs, sc, undefined)
     mtext = open(os.path.join(root, "matlab", "+cf", "R.m")).read()
     for n, e in exprs.items():
         m = re.search(r"def %s\(self\)[^\n]*\n\s+return (.*)\n" % re.escape(vlib.to_snake(n)), pytext)
@@ -459,12 +461,14 @@ def _py_values(root, names, envs):
     return {(snake[k.split("|")[0]], tuple(int(x) for x in k.split("|")[1].split(","))): v for k, v in raw.items()}
 
 
-def _cpp_values(root, names, envs, sc):
+def _cpp_values(root, names, envs, sc, undefined=()):
     from formatting_shim import to_pascal
-    main = ['#include <iostream>', '#include "types.h"', "int main() {"]
+    main = ['#include <iostream>', '#include "types.h"', "int main() {", "  std::cout << std::unitbuf;"]
     for env in envs:
         main.append("  { cf::R r; r.a = %d; r.b = %d; r.c = %d; r.d = %d;" % tuple(env))
         for n in names:
+            if (n, tuple(env)) in undefined:
+                continue
             main.append('    std::cout << "%s|%s=" << static_cast<long long>(r.%s()) << "\\n";' % (n, ",".join(map(str, env)), to_pascal(n)))
         main.append("  }")
     main.append("}")
